@@ -268,6 +268,31 @@ def check_formulas(ctx, fb):
                         okb = isinstance(b, tuple) and b[0] == "bin" and b[1] == "Add" and P(2) in b[2:] and (("len", P(3)) in b[2:] or any(isinstance(x, tuple) and x[0] in ("upd", "call") for x in b[2:]))
                     ok = oka and okb
             ctx.check(ok, "R06-2", "%s::%s high-water" % (name, m), "next_index = max(next_index, position + count)", why, loc(it))
+            if m == "set_range":
+                # an empty batch changes nothing in the ideal tree: max(next_index, start + 0) raises the mark to `start` when the
+                # batch is empty and start lies beyond it, so the mark may only be stored on paths where the count is known to be
+                # non-zero (sibling agreement: one back end guarding the store and the other not is a contradiction)
+                eng_h = Engine(fb, inline=lambda i: False)
+                bad_h = None
+                nh = 0
+                for p in eng_h.run(it):
+                    hws = [e for e in p.trace if e[0] == "write" and e[2] == (("f", "next_index"),)]
+                    if not hws:
+                        continue
+                    nh += 1
+                    v = hws[0][3]
+                    ns = set()
+                    if isinstance(v, tuple) and v[0] == "call" and len(v[2]) == 2 and isinstance(v[2][1], tuple) and v[2][1][:2] == ("bin", "Add"):
+                        ns = {x for x in v[2][1][2:] if x != P(2)}
+                    ns |= {("len", P(3))}
+                    nonzero = any(op == "!=" and ((x in ns and cint(y) == 0) or (y in ns and cint(x) == 0)) for op, x, y in eq_facts(p.conds())) or \
+                        any((op == "<" and cint(x) == 0 and y in ns) or (op == "<=" and cint(x) == 1 and y in ns) for op, x, y in cmp_facts(p.conds())) or \
+                        any(a == ("b", ("is_empty", P(3))) and v_ is False for a, v_ in p.conds())
+                    if not nonzero:
+                        bad_h = p
+                ctx.check(bad_h is None and nh >= 1, "R06-2", "%s::set_range empty batch" % name, "the mark is stored only when the batch is non-empty",
+                          "%s::set_range stores next_index = max(next_index, start + count) on a path where count may be 0: an empty range write at a position beyond the mark raises leaves_set() to that position (the ideal tree and the other back ends change nothing)" % name,
+                          loc(it, bad_h.site if bad_h else None))
         it = c15.get(fb, name, "delete")
         eng = Engine(fb, inline=lambda i: False)
         ok = True
